@@ -52,32 +52,35 @@ def model_runs(ctx):
     """All model-level TLC runs. Returns (histories to replay, counterexample histories, summary)."""
     cov = {}
     quick = ctx.quick
-    # (a) the code as it is, invariants + export of one history per distinct terminal state
+    # (a) the code as it is (since fc5270f the send-error path unregisters the waiter: LeakOnSendError = FALSE):
+    #     all invariants including C19_NoLeak, export of one history per distinct terminal state
     n, mr = (2, 3) if quick else (3, 4)
-    r = tlc_mc(ctx, "mc_code", mc_cfg(n, mr, export_every=1 if quick else 8), timeout=1500)
+    inv = INV + ["C19_NoLeak"]
+    r = tlc_mc(ctx, "mc_code", mc_cfg(n, mr, leak=False, inv=inv, export_every=1 if quick else 8), timeout=1500)
     if not r.ok:
         raise vlib.InfraError("PingMC (code) model-level failure: violated=%s error=%s\n%s" % (r.violated, r.error, r.out[-3000:]))
     cov["mc_code_%dprocs_%dmsgs" % (n, mr)] = r.summary()
     hists = [h for h in r.json if isinstance(h, list) and h]
     if not quick:
-        r2 = tlc_mc(ctx, "mc_code2", mc_cfg(2, 4, export_every=1), timeout=900)
+        r2 = tlc_mc(ctx, "mc_code2", mc_cfg(2, 4, leak=False, inv=inv, export_every=1), timeout=900)
         if not r2.ok:
             raise vlib.InfraError("PingMC (code, 2 procs 4 msgs) model-level failure: %s %s" % (r2.violated, r2.error))
         cov["mc_code_2procs_4msgs"] = r2.summary()
         hists += [h for h in r2.json if isinstance(h, list) and h]
         r.distinct += r2.distinct
         r.generated += r2.generated
-    # (b) C19_NoLeak on the code as it is: TLC must produce the send-failure counterexample
-    rl = tlc_mc(ctx, "mc_leak", mc_cfg(2, 1, inv=["C19_NoLeakX"]), timeout=300, workers=1)
+    # (b) the mechanism before the repair (KF_SendFailsLeakM: `return err` with the waiter still registered) is refuted
+    #     by TLC; its counterexample is the schedule forced first on the real code (it must not leak any more)
+    rl = tlc_mc(ctx, "mc_leak", mc_cfg(2, 1, leak=True, inv=["C19_NoLeakX"]), timeout=300, workers=1)
     cex = [x["hist"] for x in rl.json if isinstance(x, dict) and x.get("cex") == "C19_NoLeak"]
-    cov["mc_noleak_expected_cex"] = dict(rl.summary(), counterexample=cex[0] if cex else None)
+    cov["mc_unrepaired_noleak_cex"] = dict(rl.summary(), counterexample=cex[0] if cex else None)
     if rl.violated != "C19_NoLeakX" or not cex:
         raise vlib.InfraError("PingMC: expected the C19_NoLeak counterexample of KF_SendFailsLeak, got violated=%s" % rl.violated)
-    # (c) the repaired model satisfies C19_NoLeak
-    rf = tlc_mc(ctx, "mc_fixed", mc_cfg(2, 2, leak=False, inv=INV + ["C19_NoLeak"]), timeout=600)
-    cov["mc_repaired_noleak"] = rf.summary()
+    # (c) the unrepaired mechanism satisfies everything else (the deviation is exactly the leak)
+    rf = tlc_mc(ctx, "mc_unrepaired", mc_cfg(2, 2, leak=True, inv=INV), timeout=600)
+    cov["mc_unrepaired_modulo_kf"] = rf.summary()
     if not rf.ok:
-        raise vlib.InfraError("PingMC (repaired) model-level failure: violated=%s error=%s" % (rf.violated, rf.error))
+        raise vlib.InfraError("PingMC (unrepaired) model-level failure: violated=%s error=%s" % (rf.violated, rf.error))
     # (d) assumption check: with a wrapping identifier space smaller than the number of registrations
     # during one ping, distinctness is lost (uint16 in the code: 65536 registrations within <= 10 s)
     rw = tlc_mc(ctx, "mc_wrap", mc_cfg(3, 0, inv=["C19_DistinctIdsX"], idspace=2, sendfail=False, replyids="0, 1"), timeout=300, workers=1)
@@ -96,11 +99,23 @@ def to_script(hist, rng):
     fails = {e["p"] for e in hist if e["a"] == "sendfail"}
     burst = 1 if rng.random() < 0.5 else 0
     out = []
-    for e in hist:
+    inline = {}
+    skip = set()
+    for i in range(len(hist) - 1):
+        a, b = hist[i], hist[i + 1]
+        # a reply for p right after its request went out: handed to Parse from inside the send function
+        if a["a"] == "sent" and b["a"] == "reply" and b.get("tgt") == a["p"] and b["kind"] in ("echoReply4", "echoReply6") \
+                and rng.random() < 0.7:
+            inline[a["p"]] = b["kind"]
+            skip.add(i + 1)
+    for i, e in enumerate(hist):
+        if i in skip:
+            continue
         a = e["a"]
         if a == "start":
             out.append({"a": "start", "p": e["p"], "fam": e["fam"], "burst": burst,
-                        "fail": rng.choice(["addr", "write"]) if e["p"] in fails else ""})
+                        "fail": rng.choice(["addr", "write"]) if e["p"] in fails else "",
+                        "inline": inline.get(e["p"], "") if e["p"] not in fails else ""})
         elif a == "reply":
             out.append({"a": "reply", "tgt": e["tgt"], "off": e["off"], "kind": e["kind"]})
         elif a == "timeout":
@@ -133,10 +148,11 @@ def random_script(rng):
     late = rng.sample(ps, rng.randint(0, max(0, n - 1))) if n > 1 else []
     first = [p for p in ps if p not in late]
     live = []
+    inl = {p: ("echoReply4" if fam[p] == "v4" else "echoReply6") if (not fail[p] and rng.random() < 0.15) else "" for p in ps}
     for p in first:
         if rng.random() < 0.3:
             noise(live)
-        out.append({"a": "start", "p": p, "fam": fam[p], "fail": fail[p], "burst": burst})
+        out.append({"a": "start", "p": p, "fam": fam[p], "fail": fail[p], "burst": burst, "inline": inl[p]})
         live.append(p)
     pending = [p for p in first]
     todo = list(pending)
@@ -144,7 +160,7 @@ def random_script(rng):
     returned = []
     for p in todo + late:
         if p in late:
-            out.append({"a": "start", "p": p, "fam": fam[p], "fail": fail[p], "burst": 0})
+            out.append({"a": "start", "p": p, "fam": fam[p], "fail": fail[p], "burst": 0, "inline": inl[p]})
             live.append(p)
         for _ in range(rng.randint(0, 3)):
             noise([q for q in live if q not in returned])
@@ -155,6 +171,10 @@ def random_script(rng):
             continue
         own = "echoReply4" if fam[p] == "v4" else "echoReply6"
         other = "echoReply6" if fam[p] == "v4" else "echoReply4"
+        if inl[p]:
+            out.append({"a": "ret", "p": p})          # completed from inside its own send
+            returned.append(p)
+            continue
         if fate[p] == "timeout":
             out.append({"a": "timeout", "p": p})
             returned.append(p)
